@@ -24,6 +24,9 @@ pub enum OpKind {
     Single(Single),
     SearchDirect(Vec<Item>),
     SearchEntriesOnly(Vec<Item>),
+    /// a direct stream that the caller drops (without finish()) after reading this many items; whatever
+    /// the server still sends for it is "late" traffic that must not disturb anybody
+    SearchDropped(Vec<Item>, u8),
 }
 
 #[derive(Clone, Debug, Serialize, Deserialize)]
@@ -93,6 +96,7 @@ fn strat(_: &Ctx) -> BoxedStrategy<Case> {
         4 => simops::single_strat().prop_map(OpKind::Single),
         3 => items().prop_map(OpKind::SearchDirect),
         3 => items().prop_map(OpKind::SearchEntriesOnly),
+        2 => (items(), 0u8..4).prop_map(|(i, k)| OpKind::SearchDropped(i, k)),
     ];
     let op = (kind, 0u8..4, 0u8..4).prop_map(|(kind, handle, yields)| OpSpec { kind, handle, yields });
     let unsol = vec(
@@ -117,7 +121,7 @@ fn op_pdus(kind: &OpKind) -> Vec<Option<Item>> {
     // None = the final result PDU
     match kind {
         OpKind::Single(_) => vec![None],
-        OpKind::SearchDirect(it) | OpKind::SearchEntriesOnly(it) => it.iter().map(|i| Some(*i)).chain(std::iter::once(None)).collect(),
+        OpKind::SearchDirect(it) | OpKind::SearchEntriesOnly(it) | OpKind::SearchDropped(it, _) => it.iter().map(|i| Some(*i)).chain(std::iter::once(None)).collect(),
     }
 }
 
@@ -153,6 +157,25 @@ async fn client_op(ldap: &mut Ldap, idx: usize, spec: &OpSpec) -> OpObs {
             obs.last_id = ldap.last_id();
             match r {
                 Ok(res) => obs.tokens.push(res.text),
+                Err(e) => obs.error = Some(err_kind(&e)),
+            }
+        }
+        OpKind::SearchDropped(_, keep) => {
+            match ldap.streaming_search(&mk, Scope::Subtree, "(objectClass=*)", vec!["*"]).await {
+                Ok(mut stream) => {
+                    obs.last_id = stream.ldap_handle().last_id();
+                    for _ in 0..*keep {
+                        match stream.next().await {
+                            Ok(Some(re)) => obs.tokens.push(simops::item_token(&re).1),
+                            Ok(None) => break,
+                            Err(e) => {
+                                obs.error = Some(err_kind(&e));
+                                break;
+                            }
+                        }
+                    }
+                    drop(stream);
+                }
                 Err(e) => obs.error = Some(err_kind(&e)),
             }
         }
@@ -391,6 +414,13 @@ pub fn check(case: &Case, obs: &mut Obs) -> Result<(), Fail> {
         let mut want: Vec<String> = Vec::new();
         let mut refs: Vec<String> = Vec::new();
         for (seq, it) in pdus[*i].iter().enumerate() {
+            if let OpKind::SearchDropped(_, keep) = &spec.kind {
+                // the caller read at most `keep` items (fewer if the search ended first) and never asked for the result
+                if seq < *keep as usize && it.is_some() {
+                    want.push(token(*i, seq));
+                }
+                continue;
+            }
             match (&spec.kind, it) {
                 (OpKind::SearchEntriesOnly(_), Some(Item::Reference)) => refs.push(format!("ref:{}", token(*i, seq))),
                 (OpKind::SearchEntriesOnly(_), Some(Item::Intermediate)) => {}
@@ -566,7 +596,7 @@ pub fn property() -> Property {
     Property {
         id: "C01",
         level: "exploration",
-        rule: "generated histories on the simulated connection: 1-12 operations (7 single-result kinds, direct and EntriesOnly streaming searches with 0-6 items from entry/reference/intermediate) on 1-4 cloned handles with start delays; a generated global merge order of all response PDUs (any interleaving preserving per-operation order; PDUs optionally glued into one read), 0-4 unsolicited PDUs (id 0, never-issued ids with result/entry/done payloads, extra results/entries for completed ids) at generated positions, a read plan (1-byte, random chunk sizes, forced yields between chunks) and a scheduler seed for select! branch order. Oracle: every operation's observed token sequence equals what the server sent under that operation's own wire id (last_id), nobody sees an unsolicited token, driver ends cleanly. The id counter is positioned at generated starts so that message ids need 1-4 content octets. Lane alias: a response whose negative message id has the same content octets as a live operation's id (read unsigned) must never reach that operation. Non-trivial: >=2 operations outstanding at once AND (an inversion between request and completion order, or entries of >=2 searches interleaved, or an unsolicited PDU between two PDUs of a live operation). Distinct = hash of (op kinds+handles, send order, chunk plan).",
+        rule: "generated histories on the simulated connection: 1-12 operations (7 single-result kinds, direct and EntriesOnly streaming searches with 0-6 items from entry/reference/intermediate, and streams the caller drops without finish() after k items so that the rest of their traffic arrives late) on 1-4 cloned handles with start delays; a generated global merge order of all response PDUs (any interleaving preserving per-operation order; PDUs optionally glued into one read), 0-4 unsolicited PDUs (id 0, never-issued ids with result/entry/done payloads, extra results/entries for completed ids) at generated positions, a read plan (1-byte, random chunk sizes, forced yields between chunks) and a scheduler seed for select! branch order. Oracle: every operation's observed token sequence equals what the server sent under that operation's own wire id (last_id), nobody sees an unsolicited token, driver ends cleanly. The id counter is positioned at generated starts so that message ids need 1-4 content octets. Lane alias: a response whose negative message id has the same content octets as a live operation's id (read unsigned) must never reach that operation. Non-trivial: >=2 operations outstanding at once AND (an inversion between request and completion order, or entries of >=2 searches interleaved, or an unsolicited PDU between two PDUs of a live operation). Distinct = hash of (op kinds+handles, send order, chunk plan).",
         assumptions: &["tokio paused clock + RngSeed (tokio_unstable) make the history a function of the case", "late PDUs for completed ids are only scripted while ids cannot have been re-issued (no wrap-around within 12 operations)"],
         lanes: vec![
             Box::new(PLane { name: "routing", cases: |t| t.pick(2_500, 40_000), strat, check }),
